@@ -9,7 +9,7 @@ from spec import step_model as M
 PROPERTY = "C12"
 BOUNDS = {
     "quick": "node sym [10,99], child sym [10,99] or 255, command per partition (all five), ack sym [0,1], type sym [-1,40], payload symbolic |p|<=1, buffering flag symbolic, destination unknown / awake / sleeping; codec precondition (C02 predicate); 5 versions; for 2.x a message that was neither written nor refused must be written at the destination's next wake; non-message objects from a 7-element class list",
-    "thorough": "ids sym [0,255], type sym [-3,100000], |p|<=2",
+    "thorough": "ids sym [0,255] (every digit class, incl. the gateway node 0), type sym [-3,999]",
 }
 REALISED = ["negative type numbers are realised"]
 STUBS = ["RecTransport", "symbolic maps", "__repr__ -> constant"]
@@ -24,7 +24,7 @@ def partitions(tier):
     for v in VERSIONS:
         for cmd in range(5):
             parts.append({"name": "send-%s-cmd%d" % (v, cmd), "fn": "sym_send", "version": v, "cmd": cmd,
-                          "idlo": 10 if q else 0, "idhi": 99 if q else 255, "tlo": -1 if q else -3, "thi": 40 if q else 100000, "maxlen": 1 if q else 2,
+                          "idlo": 10 if q else 0, "idhi": 99 if q else 255, "tlo": -1 if q else -3, "thi": 40 if q else 999, "maxlen": 1,
                           "budget": 500 if q else 3000, "cost": 3})
         parts.append({"name": "nonmessage-%s" % v, "fn": "sym_nonmessage", "version": v, "budget": 200, "cost": 1})
     return parts
@@ -97,7 +97,9 @@ def sym_send(inp, part):
             raise Violation("version-report-disturbed", "version report before the wake gave %s, writes %r" % (k0, w0))
     if inp.bool("destination_represents_before_wake"):
         # the destination reboots and presents itself again (its registry entry is re-created) before it wakes
-        k1, v1, w1 = w.feed(M.line(n, 255, 0, 0, 17, "2.0"))
+        # (payload = the gateway's own version: if the destination is node 0 this is also a version report,
+        # which must not change the protocol in force)
+        k1, v1, w1 = w.feed(M.line(n, 255, 0, 0, 17, v))
         if k1 != "msg":
             raise Violation("re-presentation-failed:%s" % type(v1).__name__, str(v1)[:150])
     wake = (n, 255, 3, 0, 32, "") if v == "2.2" else (n, 255, 3, 0, 22, "10")
